@@ -4,7 +4,7 @@ import json, os, subprocess, sys
 VERIF = os.path.dirname(os.path.dirname(os.path.abspath(__file__)))
 EXTRA = {"C02": ["C06"], "C04": ["C07"], "C05": ["C16"], "C07": ["C04"], "C08": ["C09", "C16"], "C10": ["C11", "C01"], "C01": ["C10", "C11"],
          "C11": ["C10"], "C12": ["C15"], "C13": ["C14"], "C14": ["C13"], "C15": ["C12"], "C16": ["C05"], "C17": ["C10"], "C19": ["C18"],
-         "C03": ["C09"], "C06": ["C10"], "C20": ["C16"]}
+         "C03": ["C09"], "C06": ["C10", "C11"], "C20": ["C16"]}
 rows = []
 for name in sorted(os.listdir(os.path.join(VERIF, "seeded"))):
     d = os.path.join(VERIF, "seeded", name)
